@@ -113,6 +113,12 @@ def header_words(terms: List[T], ev: T) -> List[int]:
 
 def check(repo: Repo, run: Run) -> None:
     interp = sym.Interp(repo)
+    # the path arguments of an enclosing call are assembled from the lookup records INSIDE its window: that every record
+    # of the thread (START, continuation, END alike) is appended to every open window is the pairing machine's contract
+    from .c09 import window_obligations
+    window_obligations(repo, run, ("K3", "K4", "K5", "K7"),
+                       "lookup records of a split path then do not all reach the window of the enclosing call, whose path "
+                       "arguments are assembled from them")
     # ------------------------------------------------------------------ R1
     tp = repo.cls("traces_parser", "TracesParser")
     vg = repo.method("traces_parser", "TracesParser", "vnode_generator")
